@@ -4,14 +4,17 @@
 // (CommandLineTestRunner::runAllTestsMain on top of whatever the registry already holds).
 // Scenario (see checks/C17.py):
 //   op    :inst <name> <kind 0 plain|1 setptr> | :act <name> <post 0|1> <n> act*n | :en <id> | :dis <id> | :rm <name> | :reset
-//         | :test xtest | :run <k> xtest*k | :runner <rep> <k> xtest*k
+//         | :reinst <id> | :test xtest | :run <k> xtest*k | :runner <rep> <k> xtest*k
 //   xtest <n> xstmt*n <n> xstmt*n <n> xstmt*n          (setup, body, teardown)
 //   xstmt :set <loc> <val> | :wr <loc> <val> | :fail | :failc | :thr | :thrstd | act
-//   act   :ai <name> <kind> | :ar <name> | :ae <id> | :ad <id> | :az
+//   act   :ai <name> <kind> | :ar <name> | :ae <id> | :ad <id> | :az | :ab <id>
+// :reinst / :ab hand the EXISTING plugin object <id> (one that was removed by name or dropped by resetPlugins, with whatever
+// next_ link it was left with) to installPlugin once more.  An object that is in the chain at that moment is not handed over
+// (the chain would become circular; such scenarios are outside the property and the model refuses them).
 // Plugin ids are creation ordinals (the runner's own pointer plugin takes one too); name a0 is DEF_PLUGIN_SET_POINTER.
 // Observation: per test  ":t <failed> <npre> ids.. <npost> ids.. <pool[0..39]>"  where the id lists leave out the plugins
 // an action of that very test named (whether those were installed / enabled "for that test" the property does not say);
-// per :rm/:reset and after every :run / :runner  ":c <n> ids.."  (after :runner: the plugins not named a0; an id ffff in
+// per :rm/:reset/:reinst and after every :run / :runner  ":c <n> ids.."  (after :runner: the plugins not named a0; an id ffff in
 // front if a pool pointer changed between the last test's post actions and the return of the run).
 #include <stdexcept>
 #include <map>
@@ -35,7 +38,7 @@ static Ev gLog[8192]; static int gLogN;
 static void logEv(int kind, int id) { if (gLogN < 8192) { gLog[gLogN].kind = kind; gLog[gLogN].id = id; gLogN++; } }
 
 // ------------------------------------------------------------------ the session's registry and plugin objects
-struct Act { int kind; unsigned long long name; int arg; };        // 0 install (arg = plugin kind) 1 remove 2 enable 3 disable 4 reset (arg = id)
+struct Act { int kind; unsigned long long name; int arg; };        // 0 install (arg = plugin kind) 1 remove 2 enable 3 disable 4 reset 5 install an existing object again (arg = id)
 static TestRegistry* gReg;
 static std::vector<TestPlugin*> gObjs;                             // by id; 0 for the runner's plugin while it is not known / not alive
 static std::vector<unsigned long long> gNames;                     // by id
@@ -95,6 +98,15 @@ static void doAct(const Act& a)
         gNamed.insert(a.arg);
         if (a.arg >= 0 && (size_t)a.arg < gObjs.size() && gObjs[(size_t)a.arg]) { if (a.kind == 2) gObjs[(size_t)a.arg]->enable(); else gObjs[(size_t)a.arg]->disable(); }
         break;
+    case 5: {
+        gNamed.insert(a.arg);
+        if (a.arg < 0 || (size_t)a.arg >= gObjs.size() || !gObjs[(size_t)a.arg]) break;       // no such object (not a valid scenario)
+        TestPlugin* obj = gObjs[(size_t)a.arg];
+        bool linkedIn = false; int guard = 0;
+        for (TestPlugin* p = gReg->getFirstPlugin(); p && p != NullTestPlugin::instance() && guard < 100000; p = p->getNext(), guard++)
+            if (p == obj) linkedIn = true;
+        if (!linkedIn) gReg->installPlugin(obj);       // the object comes with the next_ link it was left with
+        break; }
     default:
         for (size_t i = 0; i < gNames.size(); i++) gNamed.insert((int)i);
         gReg->resetPlugins();
@@ -200,6 +212,7 @@ static Act parseAct(const std::string& k, Toks& t)
     else if (k == "ar") { a.kind = 1; a.name = t.u(); }
     else if (k == "ae" || k == "ad") { a.kind = k == "ae" ? 2 : 3; unsigned long long id = t.u(); a.arg = id > 0x7fffffffULL ? 0x7fffffff : (int)id; }
     else if (k == "az") a.kind = 4;
+    else if (k == "ab") { a.kind = 5; unsigned long long id = t.u(); a.arg = id > 0x7fffffffULL ? 0x7fffffff : (int)id; }
     else { fprintf(stderr, "harness: bad action %s\n", k.c_str()); exit(3); }
     return a;
 }
@@ -247,9 +260,11 @@ int main()
                 reg.installPlugin(p);
             }
             else if (k == "en" || k == "dis") { Act a; a.name = 0; a.kind = k == "en" ? 2 : 3; unsigned long long id = t.u(); a.arg = id > 0x7fffffffULL ? 0x7fffffff : (int)id; doAct(a); }
-            else if (k == "rm" || k == "reset") {
+            else if (k == "rm" || k == "reset" || k == "reinst") {
                 Act a; a.arg = 0; a.name = 0;
-                if (k == "rm") { a.kind = 1; a.name = t.u(); } else a.kind = 4;
+                if (k == "rm") { a.kind = 1; a.name = t.u(); }
+                else if (k == "reinst") { a.kind = 5; unsigned long long id = t.u(); a.arg = id > 0x7fffffffULL ? 0x7fffffff : (int)id; }
+                else a.kind = 4;
                 doAct(a);
                 out.push_back(chainItem(false));
             }
